@@ -79,7 +79,7 @@ func init() {
 				bad = append(bad, fmt.Sprintf(f, a...))
 			}
 		}
-		for it := 0; it < 300; it++ {
+		for it := 0; it < 300*scale; it++ {
 			db := diffDB(rng, 4+rng.Intn(37))
 			for qi := 0; qi < 12; qi++ {
 				q := diffQuery(rng, 12)
@@ -110,7 +110,7 @@ func init() {
 			}
 		}
 		proc := nlp.NewQueryProcessor()
-		for it := 0; it < 3000; it++ {
+		for it := 0; it < 3000*scale; it++ {
 			q := diffQuery(rng, 8)
 			if it%7 == 0 {
 				q = strings.ToUpper(q[:1]) + q[1:] + "?"
@@ -149,7 +149,7 @@ func init() {
 			}
 		}
 		factors := []float64{1, 1.3, 1.5, 2, 2.5}
-		for it := 0; it < 250; it++ {
+		for it := 0; it < 250*scale; it++ {
 			db := diffDB(rng, 4+rng.Intn(30))
 			for qi := 0; qi < 10; qi++ {
 				q := diffQuery(rng, 6)
@@ -216,7 +216,7 @@ func init() {
 		if err == nil {
 			defer os.RemoveAll(root)
 			an := wtfctx.NewAnalyzer()
-			for it := 0; it < 400; it++ {
+			for it := 0; it < 400*scale; it++ {
 				dir := filepath.Join(root, fmt.Sprintf("d%d", it))
 				os.MkdirAll(dir, 0o755)
 				n := rng.Intn(7)
@@ -299,7 +299,7 @@ func init() {
 			return w[:i] + w[i+1:]
 		}
 		thresholds := []int{0, -30, -150, -400, 40}
-		for it := 0; it < 300; it++ {
+		for it := 0; it < 300*scale; it++ {
 			db := diffDB(rng, 4+rng.Intn(30))
 			if it%5 == 0 {
 				// a long description gives very negative fuzzy scores
@@ -363,7 +363,7 @@ func init() {
 		if probe := (&database.Database{Commands: []database.Command{{Command: "zzprobe", Description: "zzprobe", Platform: []string{"linux"}}}}); len(probe.SearchUniversal("zzprobe", database.SearchOptions{Limit: 1, NoCrossPlatform: true})) == 0 {
 			host = "" // not a linux host: skip the platform-dependent part
 		}
-		for it := 0; host != "" && it < 200; it++ {
+		for it := 0; host != "" && it < 200*scale; it++ {
 			db := &database.Database{}
 			nOther := 1 + rng.Intn(25)
 			w := diffWords[rng.Intn(len(diffWords))]
